@@ -3,7 +3,8 @@ CONSTANT NtCVersions = {9, 10, 11, 12, 13, 14, 15, 16, 17, 18, 19, 20, 21}
 CONSTANT DMQVersions = {1}
 CONSTANT ExtraIds = {11, 99}
 CONSTANT Design = "legacy"
-CONSTANT LocalOptSpace = "node-to-node"
+CONSTANT LkaOffKinds = {}
+CONSTANT LkaOffFull = FALSE
 INIT Init
 NEXT Next
 INVARIANT TypeOK
